@@ -12,7 +12,7 @@ CHECKS = {
     "C01": (
         "exploration",
         "Hypothesis token soup / nesting ladders / template universes x 12 languages through parse_string; totality oracle + deterministic "
-        "call-count budget + doubling growth law (systematic for every lexeme); failures bucketed by innermost repo frame and ddmin-shrunk",
+        "call-count budget + doubling growth law (systematic for every lexeme); failures bucketed by innermost repo frame and ddmin-shrunk + (thorough tier) an atheris/libFuzzer coverage-guided campaign that drives the same Hypothesis test through fuzz_one_input with the mwlib sources instrumented",
         "Tens of thousands of generated inputs per run over the full wikitext alphabet (every scanner token, every allowed and extension tag, "
         "ill-formed/out-of-range entities, control and non-BMP characters, nesting to depth 40, recursive templates); 'never hangs / no "
         "blow-up' is decided by counting Python call events against a polynomial budget and by a doubling law on repeated units, not by "
@@ -23,7 +23,7 @@ CHECKS = {
     "C02": (
         "exploration",
         "recursive document grammar (Hypothesis st.randoms) emitting wikitext together with the expected (word, ancestor-chain) sequence, "
-        "12 languages; oracle: sequence read off the advanced tree equals the expected one in both directions",
+        "12 languages; oracle: sequence read off the advanced tree equals the expected one in both directions + (thorough tier) an atheris/libFuzzer coverage-guided campaign that drives the same Hypothesis test through fuzz_one_input with the mwlib sources instrumented",
         "Tens of thousands of generated well-formed documents per run; every visible word is a unique token, so loss, duplication, "
         "re-ordering and wrong attachment are all visible; the expectation comes from the generator's AST, not from the parser.",
         "Ancestors outside the projection are ignored; style-class order is compared as a multiset.",
@@ -42,7 +42,7 @@ CHECKS = {
     "C04": (
         "exploration",
         "Hypothesis-generated template programs and #expr trees (ASTs) serialised to wikitext; differential against an independent reference "
-        "interpreter / evaluator over the AST; metamorphic minimal- vs full-parenthesis spellings; identity on syntax-free text",
+        "interpreter / evaluator over the AST; metamorphic minimal- vs full-parenthesis spellings; identity on syntax-free text + (thorough tier) an atheris/libFuzzer coverage-guided campaign that drives the same Hypothesis test through fuzz_one_input with the mwlib sources instrumented",
         "The expected expansion is computed from the AST by a reference interpreter that never sees the wikitext and imports nothing from "
         "mwlib; thousands of programs and expressions per run are compared string-for-string (programs) or numerically with a stated "
         "tolerance (#expr).",
@@ -71,7 +71,7 @@ CHECKS = {
     "C07": (
         "exploration",
         "same grammar restricted to ordinary content; metamorphic oracle: (word, section, item nesting, reference) placement before "
-        "clean_all() == after; 2x2+ tables stay tables; failures minimised by line-based ddmin",
+        "clean_all() == after; 2x2+ tables stay tables; failures minimised by line-based ddmin + (thorough tier) an atheris/libFuzzer coverage-guided campaign that drives the same Hypothesis test through fuzz_one_input with the mwlib sources instrumented",
         "The placement sequence is read off the same tree before and after the full cleaning sequence on tens of thousands of generated "
         "documents per run.",
         "At most two nested tables per table (the cleaner's documented layout-table heuristic is outside ordinary content); restructuring "
@@ -92,7 +92,7 @@ CHECKS = {
     "C09": (
         "exploration",
         "Hypothesis bodies (full-alphabet lexeme soup) x 6 opaque tags x 10 embedding contexts x with/without wiki database; oracle: node "
-        "text == body modulo a strict reference entity grammar, node-class multiset equal to the plain-body parse, uniq round trip",
+        "text == body modulo a strict reference entity grammar, node-class multiset equal to the plain-body parse, uniq round trip + (thorough tier) an atheris/libFuzzer coverage-guided campaign that drives the same Hypothesis test through fuzz_one_input with the mwlib sources instrumented",
         "Tens of thousands of generated (tag, body, context) triples per run; the body alphabet contains every construct that would build a "
         "node if interpreted (markup, templates, parameters, HTML/include tags, comments, entities).",
         "A <ref> context is only exercised on the expander path; one leading newline after <pre> may be dropped; comments are removed by the "
@@ -122,7 +122,7 @@ CHECKS = {
     "C12": (
         "exploration",
         "Hypothesis-generated titles x spelling operators x 24 site configurations against algebraic laws L1-L4 "
-        "(canonical form, idempotence, spelling invariance, namespace id)",
+        "(canonical form, idempotence, spelling invariance, namespace id) + (thorough tier) an atheris/libFuzzer coverage-guided campaign that drives the same Hypothesis test through fuzz_one_input with the mwlib sources instrumented",
         "Generated-input search (tens of thousands of titles per run, 1.6 M thorough) over namespace entries of every "
         "bundled siteinfo, both case modes, all default namespaces; oracle is an independent statement of the canonical "
         "form computed from the siteinfo, plus idempotence and agreement of two independently drawn spellings. "
@@ -134,7 +134,7 @@ CHECKS = {
     "C13": (
         "exploration",
         "Hypothesis-generated metabook JSON trees x spellings x request pairs; round-trip, fixed-point, no-sharing and "
-        "collection-id (in)equality oracles (metamorphic: equal-by-value spellings vs single-field mutations)",
+        "collection-id (in)equality oracles (metamorphic: equal-by-value spellings vs single-field mutations) + (thorough tier) an atheris/libFuzzer coverage-guided campaign that drives the same Hypothesis test through fuzz_one_input with the mwlib sources instrumented",
         "Thousands of generated metabooks per run are loaded, dumped, reloaded and compared on plain trees; ids from nserve and "
         "serve are compared across re-spellings (must be equal) and single-field mutations (must differ). Sampled, not exhaustive.",
         "null and absent attributes are the same metabook; titles inside a metabook are distinct; stdlib json encoder produces the spellings.",
